@@ -481,6 +481,40 @@ def m_replace(e, st, a, ctx):
     raise Abort('replace: unsupported symbolic shape')
 
 
+F64_ALPHABET = [ord(c) for c in '0123456789+-.eE_infatyINFATY']
+
+
+def f64_int_literal(sv):
+    """(is a plain integer literal [+-]?digits+, its value, surely not an f64 literal: contains a character no f64 literal has)"""
+    n = len(sv.ch)
+    if n == 0: return False, 0, True
+    first = sv.ch[0]
+    has_sign = zand(zor(zeq(first, 43), zeq(first, 45)), sv.len >= 1)
+    negv = zand(zeq(first, 45), sv.len >= 1)
+    valid = [sv.len >= 1, zimp(has_sign, sv.len >= 2)]
+    v = 0; foreign = zeq(sv.len, 0)
+    for i in range(n):
+        c = sv.ch[i]
+        isd = zand(c >= 48, c <= 57)
+        skip = has_sign if i == 0 else False
+        inside = (i < sv.len)
+        valid.append(zimp(zand(inside, znot(skip)), isd))
+        v = zite(zand(inside, znot(skip)), v * 10 + (c - 48), v)
+        foreign = zor(foreign, zand(inside, znot(zor(*[zeq(c, x) for x in F64_ALPHABET]))))
+    return simp(zand(*valid)), zite(negv, -v, v), simp(foreign)
+
+
+@model(r'core::str::<impl str>::parse::<f64>')
+def m_parse_f64(e, st, a, ctx):
+    """partial model: plain integer literals of <= 15 digits are exact f64 values (represented by the integer); a string with a
+    character that no f64 literal contains is an error; everything else (fractions, exponents, inf, nan, ...) is outside the model"""
+    sv = as_str(e, st, a[0])
+    if len(sv.ch) > 15: raise Abort('parse::<f64> of a string longer than 15 chars')
+    isint, v, foreign = f64_int_literal(sv)
+    e.oblige(st, zor(isint, foreign), 'model bound: f64 literal outside the integer subset', 'unwind')
+    return E(RESULT, zite(isint, 0, 1), {0: [v], 1: [Opaque('ParseFloatError')]})
+
+
 @model(r'core::str::<impl str>::parse::<(usize|isize|i64|i32|u64|u32|u8|i8|u16|i16)>')
 def m_parse_int(e, st, a, ctx):
     ty = re.search(r'parse::<(\w+)>', ctx[0]).group(1)
@@ -1373,6 +1407,41 @@ def m_char_is_ws(e, st, a, ctx): return simp(is_ws(val(e, st, a[0])))
 @model(r'std::char::methods::<impl char>::is_ascii_digit', r'std::char::methods::<impl char>::is_numeric_placeholder')
 def m_char_is_digit(e, st, a, ctx):
     c = val(e, st, a[0]); return simp(zand(c >= 48, c <= 57))
+
+
+@model(r'core::str::<impl str>::bytes')
+def m_str_bytes(e, st, a, ctx):
+    """bytes of an ASCII string = its characters (model bound: all characters < 128, stated as an obligation)"""
+    sv = as_str(e, st, a[0])
+    e.oblige(st, zand(*[zimp(i < sv.len, c < 128) for i, c in enumerate(sv.ch)]), 'model bound: str::bytes() of non-ASCII text', 'unwind')
+    return T([V(sv.len, sv.ch), 0], 'iter::VecInto')
+
+
+@model(r'core::num::<impl u8>::is_ascii_digit')
+def m_u8_is_digit(e, st, a, ctx):
+    c = val(e, st, a[0]); return simp(zand(c >= 48, c <= 57))
+
+
+def str_lt(a, b):
+    """a < b in the lexicographic order of code points (= byte order of UTF-8)"""
+    n = max(len(a.ch), len(b.ch))
+    lt = False; eq_so_far = True
+    for i in range(n):
+        ai = a.ch[i] if i < len(a.ch) else 0; bi = b.ch[i] if i < len(b.ch) else 0
+        ina = simp(i < a.len) if i < len(a.ch) else False; inb = simp(i < b.len) if i < len(b.ch) else False
+        lt = zor(lt, zand(eq_so_far, znot(ina), inb), zand(eq_so_far, ina, inb, ai < bi))
+        eq_so_far = zand(eq_so_far, ina, inb, zeq(ai, bi))
+    return simp(lt)
+
+
+@model(r'<(&)*(std::string::String|str) as std::cmp::PartialOrd(<.*>)?>::(lt|le|gt|ge)')
+def m_str_ord(e, st, a, ctx):
+    x = as_str(e, st, a[0]); y = as_str(e, st, a[1])
+    op = ctx[0].rsplit('::', 1)[1]
+    if op == 'lt': return str_lt(x, y)
+    if op == 'gt': return str_lt(y, x)
+    if op == 'le': return simp(znot(str_lt(y, x)))
+    return simp(znot(str_lt(x, y)))
 
 
 @model(r'std::char::methods::<impl char>::is_ascii_whitespace')
